@@ -366,7 +366,20 @@ pub fn gen_lib(src: &mut Src) -> HLib {
                     };
                     refs.push(HRef::A { target, p0: (src.signed(2000), src.signed(2000)), colstep, rowstep, cols, rows, o, none_angle: src.bool() });
                 } else {
-                    refs.push(HRef::S { target, loc: (src.signed(3000), src.signed(3000)), o, none_angle: src.bool(), mag1: src.prob(1, 6) });
+                    // one placement in eight sits at the far end of the 32-bit coordinate range: the flattened
+                    // position (shape coordinate plus placement offsets) then lies beyond it, which is no error
+                    let far = |src: &mut Src| -> i64 { *src.pick(&[i32::MAX as i64, i32::MIN as i64, 2_000_000_000, -2_000_000_000, 1_500_000_000]) };
+                    let loc = if src.prob(1, 8) {
+                        let (fx, fy) = (far(src), far(src));
+                        match src.below(3) {
+                            0 => (fx, src.signed(3000)),
+                            1 => (src.signed(3000), fy),
+                            _ => (fx, fy),
+                        }
+                    } else {
+                        (src.signed(3000), src.signed(3000))
+                    };
+                    refs.push(HRef::S { target, loc, o, none_angle: src.bool(), mag1: src.prob(1, 6) });
                 }
             }
         }
@@ -521,6 +534,9 @@ fn oracle(m: &HLib, ctx: &mut Ctx) -> Result<(), String> {
     }
     if has_arr {
         ctx.label("array reference");
+    }
+    if m.structs.iter().any(|st| st.refs.iter().any(|r| matches!(r, HRef::S { loc, .. } if loc.0.abs() > 1_000_000_000 || loc.1.abs() > 1_000_000_000))) {
+        ctx.label("placement at the far end of the 32-bit coordinate range");
     }
     // where the labels sit relative to the shapes of their own struct, and which shapes there are
     for st in &m.structs {
